@@ -201,9 +201,8 @@ Proof.
                 K1 (apply_calls a raw) (seen_step m {| t_obs := [(Sid u, SNew c)]; t_calls := norm_calls a raw |}) /\
                 K2 (ks_set s u (Some o)) (apply_calls a raw) /\ K3 (ks_set s u (Some o)) (apply_calls a raw)).
       { intros kind Hkind. destruct (norm_load a kind o Hkind) as [N1 [N2 [N3 N4]]]. fold u in N1, N2, N3, N4. fold c in N1, N2.
-        apply (Close (ks_set s u (Some o)) [k_call O kind o] (SNew c) t); try assumption; [right; reflexivity | | ].
-        - rewrite N1. unfold t. destruct (acc c); [reflexivity | symmetry; apply Hexp_same].
-        - rewrite N2. reflexivity. }
+        apply (Close (ks_set s u (Some o)) [k_call O kind o] (SNew c) t); try assumption; try (right; reflexivity).
+        rewrite N1. unfold t. destruct (acc c); [reflexivity | symmetry; apply Hexp_same]. }
       destruct (s u) as [old|] eqn:Esu.
       + unfold f_update. rewrite Eco. destruct (k_cls old) eqn:Ecold.
         * unfold k_update. simpl in Hw. apply Bool.eqb_prop in Hw.
@@ -275,9 +274,82 @@ Proof.
       * intros; reflexivity.
       * intros p [].
       * intros; reflexivity.
-      * intros x E. apply (H0 u x). rewrite Esu. exact E.
+      * intros x E. rewrite Esu in E. discriminate.
       * intro X; contradiction.
       * intros x E. rewrite Esu in E. discriminate.
 Qed.
 
+
+Definition k8s_raw_trace_from (s : kstore) (h : list k8s_event) : list tstep :=
+  mk_trace (k8s_views h) (snd (k8s_run_from O s h)).
+
+Lemma k8s_raw_trace_from_cons s e r :
+  k8s_raw_trace_from s (e :: r) =
+  {| t_obs := k8s_view e; t_calls := snd (k8s_step O s e) |} :: k8s_raw_trace_from (fst (k8s_step O s e)) r.
+Proof. reflexivity. Qed.
+
+Lemma k8s_trace_ok_from : forall h s m a,
+  K0 s -> K1 a m -> K2 s a -> K3 s a -> k8s_wf_from s h = true ->
+  trace_ok_from acc m (norm_trace_from a (k8s_raw_trace_from s h)) = true /\
+  K1 (fold_left (fun a st => apply_calls a (t_calls st)) (k8s_raw_trace_from s h) a)
+     (fold_left seen_step (k8s_raw_trace_from s h) m).
+Proof.
+  induction h as [|e r IH]; intros s m a H0 H1 H2 H3 Hwf.
+  - split; [reflexivity | exact H1].
+  - rewrite k8s_raw_trace_from_cons. simpl norm_trace_from. simpl trace_ok_from. simpl fold_left.
+    simpl in Hwf. apply andb_true_iff in Hwf as [Hw1 Hw2].
+    destruct (k8s_event_ok s m a e H0 H1 H2 H3 Hw1) as [E1 [E0 [E1' [E2 E3]]]]. cbv zeta in E1, E0, E1', E2, E3.
+    rewrite E1. simpl.
+    assert (Hst : ks_step s e = fst (k8s_step O s e)).
+    { destruct e as [[| |] o]; unfold ks_step, k8s_step; cbn [fst snd]; try reflexivity. destruct (s (k_uid o)); reflexivity. }
+    rewrite Hst in Hw2.
+    (* the seen map of a step does not depend on its calls *)
+    change (seen_step m {| t_obs := k8s_view e; t_calls := snd (k8s_step O s e) |})
+      with (seen_step m {| t_obs := k8s_view e; t_calls := norm_calls a (snd (k8s_step O s e)) |}).
+    apply IH; assumption.
+Qed.
+
+Definition k8s_raw_trace (h : list k8s_event) : list tstep := k8s_raw_trace_from ks_empty h.
+
+(** T_main (Kubernetes): every well-formed watch history yields a right trace, read modulo idempotent calls *)
+Theorem k8s_trace_ok h :
+  k8s_wf h = true -> trace_ok acc (norm_trace (k8s_raw_trace h)) = true.
+Proof.
+  intro Hwf. apply (k8s_trace_ok_from h ks_empty seen_empty a_empty); try assumption.
+  - intros u old E. discriminate.
+  - intro u. reflexivity.
+  - intros u E. exfalso. apply E. reflexivity.
+  - intros u old E. discriminate.
+Qed.
+
+(** and what the provider's actual calls leave loaded is the latest valid content seen *)
+Theorem k8s_converges h u :
+  k8s_wf h = true ->
+  active_of (k8s_raw_trace h) (Sid u) = latest_valid acc (seen_of (k8s_raw_trace h) (Sid u)).
+Proof.
+  intro Hwf. apply (k8s_trace_ok_from h ks_empty seen_empty a_empty); try assumption.
+  - intros w old E. discriminate.
+  - intro w. reflexivity.
+  - intros w E. exfalso. apply E. reflexivity.
+  - intros w old E. discriminate.
+Qed.
+
 End K8s.
+
+Definition kh_nonvacuous : list k8s_event :=
+  let o u cls gen c := {| k_uid := u; k_cls := cls; k_gen := gen; k_cid := c |} in
+  [(WAdded, o 0 true 1 1); (WModified, o 0 true 1 1); (WModified, o 0 true 2 2); (WModified, o 0 true 3 3);
+   (WModified, o 0 false 4 3); (WModified, o 0 true 5 2); (WAdded, o 0 true 5 2); (WDeleted, o 0 true 5 2);
+   (WDeleted, o 0 true 5 2); (WAdded, o 1 true 1 3); (WModified, o 1 true 2 4); (WDeleted, o 1 true 2 4)].
+
+Example k8s_nonvacuous :
+  k8s_wf kh_nonvacuous = true /\
+  flat_map (fun st => filter p_ok (t_calls st)) (norm_trace (k8s_raw_trace O_rej3 kh_nonvacuous)) =
+  [ {| p_kind := KCreated; p_src := Sid 0; p_cid := Some 1; p_ok := true |};
+    {| p_kind := KUpdated; p_src := Sid 0; p_cid := Some 2; p_ok := true |};
+    {| p_kind := KDeleted; p_src := Sid 0; p_cid := None; p_ok := true |};
+    {| p_kind := KCreated; p_src := Sid 0; p_cid := Some 2; p_ok := true |};
+    {| p_kind := KDeleted; p_src := Sid 0; p_cid := None; p_ok := true |};
+    {| p_kind := KCreated; p_src := Sid 1; p_cid := Some 4; p_ok := true |};
+    {| p_kind := KDeleted; p_src := Sid 1; p_cid := None; p_ok := true |} ].
+Proof. vm_compute. split; reflexivity. Qed.
